@@ -470,7 +470,13 @@ def _work_sched(args) -> dict:
     use1 = st.lists(st.integers(0, len(battery) - 1), min_size=1, max_size=6)
     targeted = st.tuples(st.integers(2, 3), st.integers(0, 2), st.one_of(st.integers(1, 60), st.integers(1, 2400)), st.lists(seg, max_size=3), use1).map(
         lambda x: (x[0], [(x[1], x[2], 1), ((x[1] + 1) % x[0], 10**6)] + [tuple(s) for s in x[3]], x[4]))
-    strat = st.one_of(strat, strat, targeted)
+    # ... and: the first creator is stopped k yield points into its *creation* (anywhere in it), the next thread then runs
+    # its creation and its first use to the end
+    sensitive = [i for i, (n_, _) in enumerate(battery) if n_ in ("TextDocumentRegistrationOptions", "ShutdownResponse", "ExitNotification", "CreateFile",
+                                                                   "VersionedTextDocumentIdentifier", "OptionalVersionedTextDocumentIdentifier", "WorkspaceSymbolResponse")]
+    targeted2 = st.tuples(st.integers(2, 3), st.integers(0, 2), st.one_of(st.integers(1, 6500), st.integers(3000, 6000)), use1).map(
+        lambda x: (x[0], [(x[1], x[2]), ((x[1] + 1) % x[0], 10**6)], x[3] + sensitive))
+    strat = st.one_of(strat, targeted, targeted2, targeted2)
     # the threads need not ask for the same kind of converter
     thread_kinds = PLAIN_KINDS + flag_kinds(c) * 3 + ["custom-forbid-extra"]
     kinds_s = st.one_of(st.just([]), st.lists(st.sampled_from(thread_kinds), min_size=4, max_size=4))
@@ -1068,7 +1074,7 @@ def run(ctx: Ctx) -> None:
     if not pristine(t):
         raise HarnessError("main process is not pristine")
     if ctx.quick:
-        jobs = [("sched", s, ctx.seed, 5) for s in range(10)] + [("hist", s, ctx.seed, 8, 12) for s in range(6)]
+        jobs = [("sched", s, ctx.seed, 8) for s in range(10)] + [("hist", s, ctx.seed, 8, 12) for s in range(6)]
         jobs += [("cfg", s, 8, ctx.seed, 4, 2) for s in range(8)] + [("fault", s, ctx.seed, 5) for s in range(8)]
     else:
         jobs = [("sched", s, ctx.seed, 60) for s in range(10)] + [("hist", s, ctx.seed, 40, 25) for s in range(4)] + [("real", s, ctx.seed, 25) for s in range(2)]
